@@ -40,6 +40,11 @@ def execHex (cfg : PureCfg) : List String → String
     match parseHexTok h with
     | some x => s!"ok {x.len} {String.ofList (HD.print x.toBytes)} {showBytes x.toBytes} ; {x.toBytes.length} {showBytes x.toBytes}"
     | none => "bad-op"
+  | ["fmt", h] =>
+    -- `Display` and `Debug` of a Hex are its `print()`
+    match parseHexTok h with
+    | some _ => "ok true true ; ok true true"
+    | none => "bad-op"
   | ["empty"] =>
     -- `Hex::empty()`
     let x : Hex := default
